@@ -96,6 +96,8 @@ def corpus():
                                    [["assign", "<p>s", ADD(S, C(-1)), []]]],
                                   ["assign", "<p>s", ["if", ["not", ["and", ["not", ["not", GT(S, C(0))]], GT(DT, C(0))]], S, MUL(S, C(2))], []],
                                   pg.STEP]))
+    # stored as <state>y <- 0 (flatten): C03-K2
+    add("zero_times_state", pg.P1([["assign", "<state>y", MUL(MUL(C(0), DT), Y), []], pg.STEP, ["yield", Y, "y", T, "final"]]))
     add("raise_guarded", pg.P1([["assign", "<p>s", ADD(S, C(1)), []],
                                 ["if", ["expr", GT(S, C(2))], [["raise", "ErrA", "too big"]], None], pg.STEP]))
     return progs
